@@ -268,6 +268,9 @@ func TestVerifC25(t *testing.T) {
 			r.Violate("panic", "panic on contract-respecting input: "+msg,
 				map[string]any{"case": i, "panic": msg, "stack": stack, "replay_hint": fmt.Sprintf("VERIF_SEED=%d VERIF_ONLY_CASE=%d", vcommon.Seed(), i)},
 				map[string]any{"message": msg})
+			// A recovered panic leaks open iterators; in invariants builds their pool
+			// finalizers exit the process at the next GC. Persist the report now.
+			r.Finish(t)
 		}
 	})
 }
